@@ -409,7 +409,7 @@ def run_stress(chk, quick, only=None):
                              " ".join(x["e"] for x in ev), summ["prefilter_hits"]),
                           {"kind": "asyncloop-stress", "backend": backend, "method": m, "cycles": cycles, "seed": seed,
                            "contract_events": ev, "rejected_at": rj["line"]})
-    if tot["runs"] and tot["bodies"] < 3 * tot["cycles"]:
+    if tot["runs"] and tot["bodies"] < tot["cycles"]:
         raise InfraError("vacuity guard: the stressed loop hardly ran (%d bodies in %d cycles)" % (tot["bodies"], tot["cycles"]))
     chk.cov["stress_without_hooks"] = tot
     chk.log("stress without hook points: %d runs, %d start/stop cycles, %d bodies, %d cycles flagged by the pre-filter, %d traces validated"
